@@ -15,6 +15,29 @@ from .c04 import recursion_free
 TU = "swcgeom.core.tree_utils"
 
 
+def _squared_norm(d, t):
+    """`np.dot(v, v) < tol`, `v @ v < tol`, `np.sum(v * v)`, `np.sum(v ** 2)`, `(v ** 2).sum()`: the operand v, else None"""
+    if not (isinstance(t, ast.Compare) and len(t.ops) == 1 and isinstance(t.ops[0], (ast.Lt, ast.LtE))):
+        return None
+    e = t.left
+    if isinstance(e, ast.Call) and (dotted(e.func) or "").endswith(("np.dot", "np.inner", "np.vdot")) and len(e.args) == 2 \
+            and norm_src(e.args[0]) == norm_src(e.args[1]):
+        return e.args[0]
+    if isinstance(e, ast.BinOp) and isinstance(e.op, ast.MatMult) and norm_src(e.left) == norm_src(e.right):
+        return e.left
+    inner = None
+    if isinstance(e, ast.Call) and (dotted(e.func) or "").endswith("np.sum") and e.args:
+        inner = e.args[0]
+    elif isinstance(e, ast.Call) and isinstance(e.func, ast.Attribute) and e.func.attr == "sum" and not e.args:
+        inner = e.func.value
+    if inner is not None:
+        if isinstance(inner, ast.BinOp) and isinstance(inner.op, ast.Pow) and norm_src(inner.right) == "2":
+            return inner.left
+        if isinstance(inner, ast.BinOp) and isinstance(inner.op, ast.Mult) and norm_src(inner.left) == norm_src(inner.right):
+            return inner.left
+    return None
+
+
 def run(ctx, col, tier):
     repo = ctx.repo
     col.rule("R-PURE", "both operations work on copies: no store through an input alias, result fresh", floor=2)
@@ -154,6 +177,15 @@ def cat(ctx, col):
                   "junction nodes are merged iff they coincide (distance between the two junction nodes below the tolerance)",
                   tsrc, f"merge test `{tsrc}` does not compare the distance between the two junction nodes with the tolerance",
                   stmt="merge-test")
+    elif _squared_norm(d, t) is not None:
+        # |v|^2 < tol: the same test as |v| < tol only if the tolerance is squared too
+        tol = t.comparators[0]
+        tol_sq = (isinstance(tol, ast.BinOp) and isinstance(tol.op, ast.Pow) and norm_src(tol.left) in ("EPS", "eps") and norm_src(tol.right) == "2") or \
+                 (isinstance(tol, ast.BinOp) and isinstance(tol.op, ast.Mult) and norm_src(tol.left) == norm_src(tol.right) and norm_src(tol.left) in ("EPS", "eps"))
+        col.judge(tol_sq or norm_src(tol) in ("EPS", "eps"), tol_sq, "R-SENT", q, d.loc(mi),
+                  "junction nodes are merged iff they coincide (distance between the two junction nodes below the tolerance)", tsrc,
+                  f"`{tsrc}` compares the SQUARED distance of the junction nodes with the unsquared tolerance: nodes up to sqrt(EPS) apart "
+                  f"(thousands of times the tolerance) are merged and one of them is lost", stmt="merge-test", definite=True)
     elif not any(isinstance(x, ast.Call) and (dotted(x.func) or "").endswith(("norm", "allclose", "isclose", "distance", "array_equal", "hypot", "dist"))
                  or isinstance(x, ast.Attribute) and x.attr in ("xyz", "x", "y", "z")
                  for e_ in expand_names(d, t) for x in ast.walk(e_)):
